@@ -102,7 +102,7 @@ def write_document(c, path):
     model.setId("m")
     comp = model.createCompartment()
     comp.setId(nm["C"])
-    comp.setSize(V)
+    comp.setSize(1.0 if c.get("compia") else V)
     comp.setConstant(True)
     comp.setSpatialDimensions(3)
     init = {"S1": 1.5, "S2": 0.5}  # the numbers written into the document (amount or concentration)
@@ -135,6 +135,11 @@ def write_document(c, path):
         ia = model.createInitialAssignment()
         ia.setSymbol(nm["k2"])
         ia.setMath(libsbml.parseL3Formula(f"{nm['k1']} + 1"))
+    if c.get("compia"):
+        # the size attribute says 1, the real size (V = 2) comes from an initial assignment
+        ia = model.createInitialAssignment()
+        ia.setSymbol(nm["C"])
+        ia.setMath(libsbml.parseL3Formula(f"{nm['k1']} + 1.25" if c["compia"] == "expr" else "2"))
     if c.get("iachain"):
         # a chain of initial assignments over parameters that also carry a (to be overridden) value attribute:
         # kq1 := k1 + 0.5, kq2 := 2 * kq1, listed in dependency order or the other way round
@@ -263,6 +268,9 @@ def generate(tier):
             add(names=names, hosu=hosu, k2=k2, law=law, fdef=int(law == "fcall"))
     for names, hosu, k2, sia, law, chain in it.product(("internal-S1", "internal-k2"), (0, 1), K2, (0, 1), ("ma", "piecewise", "fcall"), (None, "fwd")):
         add(names=names, hosu=hosu, k2=k2, sia=sia, ruled=1, law=law, fdef=1, **({"iachain": chain} if chain else {}))
+    # compartment whose size attribute (1) is overridden by an initial assignment (2)
+    for compia, hosu, init, law, st, names in it.product(("const", "expr"), (0, 1), ("conc", "amount"), ("ma", "ma-comp", "piecewise"), ("one", "half", "rule"), ("plain", "keyword")):
+        add(compia=compia, hosu=hosu, init=init, law=law, stoich=st, names=names)
     # chains of initial assignments, listed in and against dependency order
     for chain, hosu, k2, sia, law, names in it.product(("fwd", "rev"), (0, 1), K2, (0, 1), ("ma", "piecewise", "fcall"), ("plain", "keyword", "timelike")):
         add(iachain=chain, hosu=hosu, k2=k2, sia=sia, law=law, names=names, fdef=int(law == "fcall"))
@@ -300,11 +308,19 @@ def compare(m, c, txt, nt):
         var_of[s] = cand[0]
     sym0 = ref["symbol_initial"]
     denotes = {}
+    init_bad = None
     for s in ("S1", "S2"):
         amount0 = sym0[s] if c["hosu"] else sym0[s] * V
         conc0 = amount0 / V
         got = float(ic[var_of[s]])
-        if _close(got, conc0) and not _close(got, amount0):
+        if f"{var_of[s]}_amount" in m.ids:
+            # the importer keeps the amount as a derived quantity next to this variable: the variable is the concentration
+            denotes[s] = "conc"
+            if not _close(got, conc0):
+                # remembered; parameters and derivatives are still compared, so that this cannot hide another difference
+                init_bad = init_bad or outcome(False, "wrong-initial", symptom="wrong-initial-value", nontrivial=nt,
+                                               detail=f"species {nm[s]} (kept as a concentration, with {var_of[s]}_amount derived from it): imported initial value {got}, the document prescribes the concentration {conc0} | {txt}")
+        elif _close(got, conc0) and not _close(got, amount0):
             denotes[s] = "conc"
         elif _close(got, amount0):
             denotes[s] = "amount"
@@ -341,7 +357,7 @@ def compare(m, c, txt, nt):
             if not _close(g, e):
                 return outcome(False, "wrong-derivative", symptom="wrong-derivative", nontrivial=nt,
                                detail=f"d{nm[s]}/dt ({denotes[s]}) at symbols {sv}: {g} expected {e} | {txt}")
-    return None
+    return init_bad
 
 
 def check(case):
@@ -411,6 +427,7 @@ PREDICATES = {
     "C17-pysbml-underscore-compartment": lambda c: c["names"] == "underscore",
     "C17-pysbml-constant-names": lambda c: c["names"] == "mathconst",
     "C17-pysbml-substance-only-initial-assignment": lambda c: bool(c["hosu"]) and bool(c["sia"]),
+    "C17-pysbml-concentration-under-compartment-initial-assignment": lambda c: bool(c.get("compia")) and not c["hosu"] and c["init"] == "conc",
 }
 
 
